@@ -96,7 +96,11 @@ def run(ctx):
     areas = 0
     verdicts = {}
     for f in sorted(glob.glob(os.path.join(tdir, "t.*"))):
-        rc, out, err = common.run([common.model_bin(), "scon"], input=open(f).read(), timeout=600)
+        text = open(f).read()
+        if not text.endswith("\n"):
+            # a driver killed at its time limit leaves a half-written last record
+            text = text[:text.rfind("\n") + 1]
+        rc, out, err = common.run([common.model_bin(), "scon"], input=text, timeout=600)
         for l in out.split("\n")[:-1]:
             aid, n, v = l.split(" ", 2)
             areas += 1
@@ -130,9 +134,7 @@ def run(ctx):
             else:
                 suspects.update(window)
     sl = sorted(suspects)
-    single = [zw.run_cases([lines[i]], flavour="san")[0] for i in sl] if len(sl) <= 400 else []
-    if len(sl) > 400:
-        bad("leak", "LeakSanitizer reports leaks in more than %d places" % len(sl), {"kind": "leak", "count": len(sl)})
+    single = zw.run_cases([lines[i] for i in sl], flavour="san", chunk=1)      # one process per case, in parallel
     for i, r in zip(sl, single):
         if not r.d.get("leak"):
             continue
